@@ -100,8 +100,9 @@ class C13(Check):
         if tier != "quick":
             for sp in expr.generate(seed, 8):
                 if len(sp.states) <= 3 and len(sp.params) <= 3:
-                    us.append(var_unit(sp, False, False))
-                    us.append(var_unit(sp, True, False))
+                    for u in (var_unit(sp, False, False), var_unit(sp, True, False)):
+                        u.optional = True
+                        us.append(u)
         return us
 
 
